@@ -61,6 +61,9 @@ def run(ctx):
   ctx.borrow(c02.rule_release, "R-C07-NEIGHBOUR", lambda r: r.where.endswith("BatchDLOfDifferences"))
   from . import c03 as _c03
   ctx.borrow(_c03.rule_verdict, "R-C07-NEIGHBOUR")
+  # CheckIssuerKey copies one key's verdict to every signature grouped with it: the grouping key must identify the key (curve type and point) - shared with C16
+  from . import c16 as _c16
+  ctx.borrow(_c16.rule_issuer, "R-C07-NEIGHBOUR", None, T.bodies(ctx.repo))
   # a healthy key checked alone (or with copies of itself) is judged through the product tree of a single value: T must be the sum of cofactors (shared with C03)
   from . import c03
   ctx.borrow(c03.rule_tree, "R-C07-TREE")
@@ -72,7 +75,7 @@ def run(ctx):
   ctx.borrow(c10.rule_dup, "R-C07-REPEAT")
   ctx.borrow(c17.rule_stateless, "R-C07-REPEAT")
   ctx.expect("R-C07-REPEAT", 11, "duplicate-key rows of the difference search + state scan")
-  ctx.expect("R-C07-NEIGHBOUR", 2 + 24 + 2 + 11, "BatchGCD element-wise + per-curve partitions + one fresh entry per artifact in 24 Check bodies")
+  ctx.expect("R-C07-NEIGHBOUR", 2 + 24 + 2 + 11 + 1, "BatchGCD element-wise + per-curve partitions + one fresh entry per artifact in 24 Check bodies")
   ctx.expect("R-C07-BOUNDS", 7, "seven thresholds")
   ctx.expect("R-C07-EXACT", 29, "29 registered checks")
 
